@@ -65,6 +65,9 @@ pub struct HalState {
     pub next_share: u64,
     /// the n-th share() call (1-based) is mapped at device address 0, a perfectly legal IOVA
     pub zero_share_at: Option<u64>,
+    /// how the device translates addresses (Some(flag) = the platform distinguishes mappings made
+    /// with and without ACCESS_PLATFORM)
+    pub dev_ap: Option<bool>,
     pub share_calls: u64,
     pub alloc_calls: u64,
     /// 1-based index of the dma_alloc call that must fail.
@@ -99,6 +102,7 @@ impl HalState {
             next_dma: DMA_BASE_DEFAULT,
             next_share: SHARE_BASE + 0x31,
             zero_share_at: None,
+            dev_ap: None,
             share_calls: 0,
             alloc_calls: 0,
             fail_alloc_at: None,
@@ -126,6 +130,16 @@ impl HalState {
         let end = iova as u128 + len as u128;
         if end > r.paddr as u128 + r.len as u128 {
             return Err(self.describe_bad(iova, len));
+        }
+        // On a platform where ACCESS_PLATFORM matters the device's accesses go through the IOMMU
+        // exactly when the feature was negotiated; a region mapped the other way is unreachable.
+        if let Some(ap) = self.dev_ap {
+            if r.ap != ap {
+                return Err(format!(
+                    "device access to [{:#x},+{}): region {:?} was mapped with access_platform={} but the device translates with access_platform={} and cannot reach it",
+                    iova, len, r.kind, r.ap, ap
+                ));
+            }
         }
         let ok = match r.dir {
             Dir::Both => true,
